@@ -229,7 +229,7 @@ fn hammer(secs: u64, rep: &mut Report) {
                     rep.v("C06", format!("hammer iter {iters}: {k} handlers started after kill() had returned"));
                 }
                 if !killed || actor.stop_killed != Some(true) {
-                    rep.v("C06 C04 C05", format!("hammer iter {iters}: after kill(): result.killed={killed}, on_stop argument={:?}", actor.stop_killed));
+                    rep.v("C06", format!("hammer iter {iters}: kill() had returned before anything else could end the actor, yet: result.killed={killed}, on_stop argument={:?} (a kill that has returned before the actor began stopping ends it with on_stop(killed=true))", actor.stop_killed));
                 }
             } else if killed || actor.stop_killed != Some(false) {
                 rep.v("C04 C05 C07", format!("hammer iter {iters} mode {mode}: graceful end reported killed={killed}, on_stop argument={:?}", actor.stop_killed));
@@ -499,7 +499,7 @@ fn mix(secs: u64, rep: &mut Report) {
         if actor.stops.len() != 1 || !completed {
             rep.v("C04 C05", format!("{what}: on_stop calls {:?}, completed={completed} (exactly one on_stop, completed)", actor.stops));
         } else if ending == 0 && (!killed || actor.stops != vec![true]) {
-            rep.v("C06 C05 C04", format!("{what}: after kill(): result.killed={killed}, on_stop argument {:?}", actor.stops));
+            rep.v("C06", format!("{what}: kill() had returned before the last reference was dropped, yet: result.killed={killed}, on_stop argument {:?} (a kill that has returned before the actor began stopping ends it with on_stop(killed=true))", actor.stops));
         } else if ending != 0 && (killed || actor.stops != vec![false]) {
             rep.v("C04 C05 C07", format!("{what}: graceful ending reported killed={killed}, on_stop argument {:?}", actor.stops));
         }
@@ -1766,6 +1766,64 @@ fn cyclerace(rep: &mut Report) {
 #[cfg(not(feature = "deadlock"))]
 fn cyclerace(rep: &mut Report) {
     rep.s("cyclerace", "not applicable: this build has no deadlock detection".into());
+}
+
+// ------------------------------------------------------------------------------------------------ kill, then everything else
+/// kill() first, then whatever else would end the actor gracefully - the last reference dropped, or stop() and then the
+/// drop - on a multi-thread runtime, against an actor whose loop is being polled all the time (its on_run yields and
+/// returns Ok(true)): the kill had returned before the actor began stopping, so it ends with on_stop(killed=true) and
+/// reports killed=true, wherever in its poll the loop was when the signal arrived
+struct Kd {
+    stops: Vec<bool>,
+}
+impl Actor for Kd {
+    type Args = ();
+    type Error = String;
+    async fn on_start(_: (), _: &ActorRef<Self>) -> Result<Self, String> {
+        Ok(Kd { stops: vec![] })
+    }
+    async fn on_run(&mut self, _: &ActorWeak<Self>) -> Result<bool, String> {
+        tokio::task::yield_now().await;
+        Ok(true)
+    }
+    async fn on_stop(&mut self, _: &ActorWeak<Self>, k: bool) -> Result<(), String> {
+        self.stops.push(k);
+        Ok(())
+    }
+}
+fn killdrop(secs: u64, rep: &mut Report) {
+    let rt = tokio::runtime::Builder::new_multi_thread().worker_threads(4).enable_time().build().unwrap();
+    let trials = if secs > 1 { 120_000u32 } else { 20_000 };
+    let mut done = 0u32;
+    for i in 0..trials {
+        done += 1;
+        let then_stop = i % 2 == 1;
+        if i % 5000 == 0 {
+            note(format!("killdrop: trial {i}"));
+        }
+        let (r, j) = rt.block_on(async { spawn::<Kd>(()) });
+        std::thread::sleep(Duration::from_micros(30)); // the actor is in its loop
+        let ok = r.kill().is_ok();
+        if then_stop {
+            let _ = rt.block_on(async { tokio::time::timeout(Duration::from_secs(5), r.stop()).await });
+        }
+        drop(r);
+        let res = rt.block_on(async { tokio::time::timeout(Duration::from_secs(10), j).await });
+        match res {
+            Ok(Ok(out)) => {
+                let stops = out.actor().map(|a| a.stops.clone());
+                if !ok || !out.was_killed() || !out.is_completed() || stops != Some(vec![true]) {
+                    rep.v("C06", format!("killdrop (trial {i}): kill() returned ok={ok}; then {}the last reference was dropped; the actor ended with killed={}, completed={}, on_stop arguments {stops:?} (kill() had returned before the actor began stopping: on_stop(killed=true), reported as killed)", if then_stop { "stop() was called and " } else { "" }, out.was_killed(), out.is_completed()));
+                    break;
+                }
+            }
+            other => {
+                rep.v("C06 C07", format!("killdrop (trial {i}): after kill() the JoinHandle did not yield a result within 10 s: {}", if other.is_err() { "still pending" } else { "task failed" }));
+                break;
+            }
+        }
+    }
+    rep.s("killdrop", format!("trials={done}"));
 }
 
 // ------------------------------------------------------------------------------------------------ what happened earlier does not matter
@@ -3470,6 +3528,7 @@ fn main() {
             "cyclerace" => ("C14", 600),
             "slowlog" => ("C14 C15", 900),
             "stale" => ("C01 C09 C10 C07", 240),
+            "killdrop" => ("C06", 600),
             "erasedblk" => ("C16 C17", 600),
             "blocking" => ("C17 C10 C03", 720),
             "ids" => ("C11", 120),
@@ -3504,6 +3563,7 @@ fn main() {
                     "cyclerace" => cyclerace(&mut r),
                     "slowlog" => slowlog(secs, &mut r),
                     "stale" => stale(&mut r),
+                    "killdrop" => killdrop(secs, &mut r),
                     "erasedblk" => erasedblk(&mut r),
                     "blocking" => blocking(&mut r),
                     "ids" => ids(&mut r),
